@@ -85,8 +85,16 @@ def generate(unit, repo='/repo', import_mode=False):
             g.problems.append({'kind': 'lost-anchor', 'where': 'item', 'fn': '%s %s' % (kw, name), 'detail': str(e)}); continue
         base = rsrc.count('\n', 0, rs) + 1
         rt = X.simple_rewrites(X.normalize(X.tokens(rsrc[rs:re_], base)), unit.get('rewrite_opts'))
-        ot = X.tokens(ov[os_:oe])
-        same = X.strs(rt) == X.strs([t for t in ot])
+        cc = unit.get('const_contracts', {}).get(name)
+        if cc and kw == 'const':
+            # R20: `const N: T = E;` -> `exec const N: T ensures <clause> { proof { <hint> } E }` (real initializer tokens kept)
+            eq = X.strs(rt).index('='); head = rt[1:eq]; init = rt[eq + 1:-1]
+            new_rt = X.T('const') + head + X.T('ensures') + X.tokens(cc['ensures']) + X.T('{ proof {') + X.tokens(cc.get('proof', '')) + X.T('}') + init + X.T('}')
+            m_ = X.mask(ov); o_ = m_.find('{', os_); oe = X.match_brace(m_, o_) + 1
+            ot = X.tokens(ov[os_:oe]); same = X.strs(new_rt) == X.strs(ot); rt = new_rt
+        else:
+            ot = X.tokens(ov[os_:oe])
+            same = X.strs(rt) == X.strs([t for t in ot])
         text, origin = X.emit_with_lines(rt)
         g.items.append({'item': '%s %s' % (kw, name), 'file': rel, 'line': base, 'identical_to_snapshot': same})
         pieces.append((os_, oe, text, origin, '%s %s' % (kw, name), rel))
